@@ -88,7 +88,7 @@ def sym_for(ip, s, name, default):
   if isinstance(default, int):
     v = z3.Int("a_" + name)
     s.vars["a_" + name] = v
-    lo = 2 if name == "bits" else (1 if name in ("relu_shift", "relu_upper_bound", "number_of_unrolls") else 0)
+    lo = 2 if name == "bits" else 0
     ip.assume(z3.And(v >= lo, v <= 64))
     return SNum(v, "int")
   if isinstance(default, float):
@@ -99,7 +99,7 @@ def sym_for(ip, s, name, default):
     if name == "qnoise_factor":
       ip.assume(z3.And(v >= 0, v <= 1))
     else:
-      ip.assume(v > 0)
+      ip.assume(v >= 0)
     return SNum(v, "float")
   return default
 
